@@ -601,6 +601,23 @@ fn main() {
             if id == "pyish" {
                 text = gen_pyish(&mut rng, budget);
                 bounds.clear();
+            } else if d % 4 == 3 {
+                // glue: drop single blanks between tokens that do not need them (`a /*b` instead of
+                // `a / * b`), so that multi-character tokens that start like shorter ones occur
+                let mut glued = Vec::with_capacity(text.len());
+                for i in 0..text.len() {
+                    let c = text[i];
+                    if c == b' ' && i > 0 && i + 1 < text.len() {
+                        let (p, n) = (text[i - 1], text[i + 1]);
+                        let word = |b: u8| b.is_ascii_alphanumeric() || b == b'_' || b >= 0x80;
+                        if !(word(p) && word(n)) && p != b' ' && n != b' ' && rng.chance(2, 3) {
+                            continue;
+                        }
+                    }
+                    glued.push(c);
+                }
+                text = glued;
+                bounds.clear();
             }
             if d % 5 == 4 {
                 text = gen::mutate_bytes(&mut rng, &text);
